@@ -11,9 +11,7 @@ Join(cs) == IF cs = <<>> THEN "" ELSE Head(cs) \o Join(Tail(cs))
 RECURSIVE FlatC(_)
 FlatC(ss) == IF ss = <<>> THEN <<>> ELSE Head(ss) \o FlatC(Tail(ss))
 
-\* the upper-case letters used by the alphabets of the configs
-LowerOf(c) == CASE c = "A" -> "a" [] c = "B" -> "b" [] c = "C" -> "c" [] c = "E" -> "e" [] c = "K" -> "k" [] c = "X" -> "x"
-                [] c = "N" -> "n" [] c = "I" -> "i" [] c = "F" -> "f" [] c = "T" -> "t" [] OTHER -> c
+LowerOf(c) == CASE c = "A" -> "a" [] c = "B" -> "b" [] c = "C" -> "c" [] c = "D" -> "d" [] c = "E" -> "e" [] c = "F" -> "f" [] c = "G" -> "g" [] c = "H" -> "h" [] c = "I" -> "i" [] c = "J" -> "j" [] c = "K" -> "k" [] c = "L" -> "l" [] c = "M" -> "m" [] c = "N" -> "n" [] c = "O" -> "o" [] c = "P" -> "p" [] c = "Q" -> "q" [] c = "R" -> "r" [] c = "S" -> "s" [] c = "T" -> "t" [] c = "U" -> "u" [] c = "V" -> "v" [] c = "W" -> "w" [] c = "X" -> "x" [] c = "Y" -> "y" [] c = "Z" -> "z" [] OTHER -> c
 ToLower(cs) == [i \in 1..Len(cs) |-> LowerOf(cs[i])]
 Snake(cs)   == [i \in 1..Len(cs) |-> IF cs[i] = "-" THEN "_" ELSE cs[i]]
 
